@@ -1,0 +1,30 @@
+//go:build verif
+
+package keeper
+
+// Verification hook (add-only, build tag verif): read access to the package-level aggregator
+// contexts without triggering their lazy initialisation.
+
+import "github.com/ExocoreNetwork/exocore/x/oracle/keeper/aggregator"
+
+// VerifC12Agc returns the DeliverTx-mode aggregator context (nil when not yet initialised).
+func VerifC12Agc() *aggregator.AggregatorContext { return agc }
+
+// VerifC12AgcCheckTx returns the CheckTx-mode aggregator context (nil when not yet copied).
+func VerifC12AgcCheckTx() *aggregator.AggregatorContext { return agcCheckTx }
+
+// VerifC12DumpAgc dumps the DeliverTx-mode context; ok=false when it is nil.
+func VerifC12DumpAgc() (d aggregator.VerifC12Dump, ok bool) {
+	if agc == nil {
+		return d, false
+	}
+	return agc.VerifC12Dump(), true
+}
+
+// VerifC12DumpAgcCheckTx dumps the CheckTx-mode context; ok=false when it is nil.
+func VerifC12DumpAgcCheckTx() (d aggregator.VerifC12Dump, ok bool) {
+	if agcCheckTx == nil {
+		return d, false
+	}
+	return agcCheckTx.VerifC12Dump(), true
+}
